@@ -108,6 +108,66 @@ def gen_extra(rng, proj):
     return ex
 
 
+def unresolved_renamed(exp_p, exp_v):
+    """routines that are regular items of the planning graph and whose `_x`-renamed name is an ExternalItem of the
+    conversion graph"""
+    plan_items = {x[0].split('#')[-1] for x in sec(exp_p, 'pool') if not ob(x[2])}
+    return sorted(x[0] for x in sec(exp_v, 'pool')
+                  if ob(x[2]) and x[0].endswith('_x') and x[0].split('#')[-1][:-2] in plan_items)
+
+
+GATED = ('plandeps-disable-scope', 'rename-unresolved-callee')
+
+
+def listed_classes():
+    from ..core import load_known
+    return {k['class'] for k in load_known() if k['property'] == 'C24' and k.get('status', 'open') == 'open'}
+
+
+def scope_class_listed():
+    from ..core import load_known
+    return any(k['property'] == 'C24' and k['class'] == 'plandeps-disable-scope' and k.get('status', 'open') == 'open'
+               for k in load_known())
+
+
+def generated_scope_disabled(proj, cfg, pl):
+    """DuplicateKernel pipeline and some disable list (default or of a routine) names the module the duplicate of the
+    kernel is put in (`<module>_dupm`)"""
+    if pl[0] != 'dup':
+        return False
+    home = c22.home_of(proj).get(pl[1])
+    if not home:
+        return False
+    lists = [cfg['ddisable']] + [ent.get('disable', []) for _, ent in cfg['routines']]
+    return any(home + '_dupm' in l for l in lists)
+
+
+def name_generated_items(rng, proj, cfg, kernel):
+    """copy of `cfg` in which a disable / block / ignore list (of the calling driver r0, or the default `disable`)
+    names the item an item-creating transformation generates from `kernel` (DuplicateKernel suffixes `_dup` /
+    `_dupm`), or the original: planning registers generated items in plan_data, the conversion finds them in the IR"""
+    import copy
+    cfg = copy.deepcopy(cfg)
+    home = c22.home_of(proj).get(kernel)
+    vals = [kernel + '_dup', kernel + '_dup', kernel]
+    if home:
+        vals += [f'{home}_dupm#{kernel}_dup']
+        if scope_class_listed():
+            # naming the generated *module* makes planning and conversion disagree (class plandeps-disable-scope):
+            # generated only once that class is listed among the known findings
+            vals += [home + '_dupm']
+    val = rng.choice(vals)
+    if rng.random() < 0.25:
+        cfg['ddisable'] = sorted(set(cfg['ddisable']) | {val})
+        return cfg
+    key = rng.choice(['disable', 'disable', 'block', 'ignore'])
+    ents = dict(cfg['routines'])
+    ent = ents.setdefault('r0', {})
+    ent[key] = sorted(set(ent.get(key, [])) | {val})
+    cfg['routines'] = [[k, v] for k, v in ents.items()]
+    return cfg
+
+
 def gen_wcfg(rng):
     return dict(suffix=rng.choice([None, None, '.F90', '.f90', '']), outdir=rng.random() < 0.6, root=rng.random() < 0.4,
                 modvars=rng.random() < 0.4)
@@ -206,6 +266,12 @@ def export(sched, w, root):
             [A('forderw'), orders[0]], [A('forderc'), orders[1]], [A('finfo')] + finfo]
 
 
+def parse_planfile(text):
+    """every `set( NAME … )` block of the plan file, in file order: [[NAME, entry, …], …]"""
+    import re
+    return [[m.group(1)] + m.group(2).split() for m in re.finditer(r'set\(\s*(\w+)\s*(.*?)\s*\)', text, re.S)]
+
+
 def libmap(d, root):
     return [[ostr(k)] + [rel(p, root) for p in v] for k, v in d.items()]
 
@@ -224,6 +290,7 @@ def real_runs(proj, cfg, extra, layout, w, pl):
             planfile = Path(root) / 'build' / 'plan.cmake'
             planner.write_plan(planfile)
             res['plan']['file'] = planfile.read_text().replace(str(root), ROOT)
+            res['plan']['sets'] = parse_planfile(res['plan']['file'])
             planfile.unlink()
         except (nx.NetworkXUnfeasible, RuntimeError):
             raise
@@ -312,7 +379,8 @@ def response(req, res):
         return [A('error'), A('export-mismatch')]
     p = res['plan']
     return [A('ok'), [A('transform')] + p['transform'], [A('append')] + p['append'], [A('remove')] + p['remove'],
-            [A('written')] + res['conv']['written'], known_flags(res)]
+            [A('written')] + res['conv']['written'], known_flags(res),
+            [A('planfile')] + sorted(p['sets'])]
 
 
 # ------------------------------------------------------------------ direct oracle
@@ -340,15 +408,31 @@ def check_property(res, ctx):
     written = res['conv']['written']
     app = sorted(flat(p['append']))
     # which items are processed differs between the graph built once (planning) and twice (conversion)?
-    ign_p = {x[0]: str(x[3]) for x in sec(p['exp'], 'pool')}
-    ign_v = {x[0]: str(x[3]) for x in sec(res['conv']['exp'], 'pool')}
-    drift = sorted(n for n in set(ign_p) | set(ign_v) if ign_p.get(n) != ign_v.get(n))
+    # class graph-drift: an item present in BOTH graphs (same routine; renaming pipelines add `_x`) is ignored in one and
+    # not in the other.  Items present in only one graph are not part of this class.
+    def local(n):
+        n = n.split('#')[-1]
+        return n[:-2] if n.endswith('_x') else n
+    ign_p = {local(x[0]): str(x[3]) for x in sec(p['exp'], 'pool')}
+    ign_v = {local(x[0]): str(x[3]) for x in sec(res['conv']['exp'], 'pool')}
+    drift = sorted(n for n in set(ign_p) & set(ign_v) if ign_p[n] != ign_v[n])
     dup = sorted({x for x in app if app.count(x) > 1})
     if app != written:
         if dup and sorted(set(app)) == written:
             cls = 'output-collision'
             what = (f'plan appends {dup} more than once: different source files map to the same output file, the '
                     f'conversion leaves {len(written)} files for {len(app)} planned')
+        elif unresolved_renamed(p['exp'], res['conv']['exp']):
+            cls = 'rename-unresolved-callee'
+            what = (f'plan appends {app} but the conversion wrote {written}: the pipeline renames the calls to '
+                    f'{unresolved_renamed(p["exp"], res["conv"]["exp"])} but not the routines themselves (driver role / '
+                    f'ignored); non-strict, so the renamed callee becomes an ExternalItem in the conversion graph and its '
+                    f'file is not written, while planning (the renaming transformations have no plan_* methods) lists it')
+        elif generated_scope_disabled(proj, cfg, pl):
+            cls = 'plandeps-disable-scope'
+            what = (f'plan appends {app} but the conversion wrote {written}: a `disable` entry names the module of an item '
+                    f'generated by {pl[0]}; the planning-side filter of plan_data dependencies (match_item_keys on the full and '
+                    f'local name) keeps it, the conversion-side filter (create_from_ir, match_item_parents=True) drops it')
         elif drift:
             cls = 'graph-drift'
             what = (f'plan appends {app} but the conversion wrote {written}: items {drift[:4]} differ (ignored / present) '
@@ -395,14 +479,45 @@ def check_property(res, ctx):
                                  f"not listed)", cls))
         if sorted(flat(p['remove'])) != sorted(want_r):
             fails.append(Failure(f"sources_to_remove {sorted(flat(p['remove']))} but the replaced originals are {sorted(want_r)}"))
-    # the plan file says the same as the lists
-    text = p.get('file', '')
+    # the plan file: every block, global and per library
+    sets = {}
+    for blk in p.get('sets', []):
+        if blk[0] in sets:
+            fails.append(Failure(f'plan file defines {blk[0]} twice (library names that differ only in the sanitised character)',
+                                 'planfile-key-clash'))
+        sets[blk[0]] = blk[1:]
+    libs = []
+    for lm in (p['transform'], p['append'], p['remove']):
+        for e in lm:
+            k = dstr(e[0])
+            if k is not None and k not in libs:
+                libs.append(k)
+    clash = len({k.replace('.', '_') for k in libs}) != len(libs)
     for name, lm in (('APPEND', p['append']), ('TRANSFORM', p['transform']), ('REMOVE', p['remove'])):
-        import re
-        m = re.search(r'set\( LOKI_SOURCES_TO_' + name + r' \n(.*?)\n   \)', text, re.S)
-        got = m.group(1).split() if m else None
+        got = sets.get('LOKI_SOURCES_TO_' + name)
         if got != flat(lm):
             fails.append(Failure(f'plan file LOKI_SOURCES_TO_{name} = {got}, lists say {flat(lm)}'))
+        for k in libs:
+            blk = sets.get(f"LOKI_SOURCES_TO_{name}_{k.replace('.', '_')}")
+            mine = [x for e in lm if dstr(e[0]) == k for x in e[1:]]
+            if blk is None:
+                fails.append(Failure(f'plan file has no LOKI_SOURCES_TO_{name} block for library {k}'))
+                continue
+            if not clash and blk != mine:
+                fails.append(Failure(f"plan file LOKI_SOURCES_TO_{name}_{k.replace('.', '_')} = {blk} but the {name.lower()} "
+                                     f'list of library {k} is {mine}'))
+            extra_ = [x for x in blk if x not in (got or [])]
+            if extra_:
+                fails.append(Failure(f"plan file LOKI_SOURCES_TO_{name}_{k.replace('.', '_')} lists {extra_} which are not in "
+                                     f'the global LOKI_SOURCES_TO_{name}'))
+    # independent of the lists: no replicated (or unprocessed) original in any REMOVE block
+    if not drift and not dup:
+        for nm, blk in sets.items():
+            if nm.startswith('LOKI_SOURCES_TO_REMOVE'):
+                bad = sorted(set(blk) - set(want_r))
+                if bad:
+                    fails.append(Failure(f'plan file {nm} removes {bad}: not originals that are replaced (replicated files '
+                                         f'stay in the build)'))
     return fails
 
 
@@ -418,7 +533,7 @@ class C24(Prop):
     theorems = ['C24_append_spec', 'C24_transform_eq_origins', 'C24_remove_eq_replaced', 'C24_remove_sub_transform',
                 'C24_append_eq_writes', 'C24_append_eq_written', 'C24_append_covers_written', 'C24_writer_sub_planner',
                 'C24_plan_eq_conversion', 'C24_plan_transform_remove_all', 'C24_transform_derived_partial',
-                'C24_outdir_name_only', 'C24_nooutdir_same_dir']
+                'C24_outdir_name_only', 'C24_nooutdir_same_dir', 'C24_planfile_lib_spec', 'C24_planfile_lib_sub_global']
     design_ref = 'DESIGN.md 4.D C24'
     level_text = ('Lean theorems for ALL traversals, file attributes and writer configurations about a model of '
                   'FileWriteTransformation (_get_file_path, plan_file, transform_file) and of the CMakePlanTransformation.plan_file '
@@ -476,6 +591,14 @@ class C24(Prop):
                 rep = [a.value for a in n.args]
         if default is None or rep is None or len(rep) != 2 or any(len(x) != 1 for x in rep):
             raise ValueError('cannot read the constants of _get_file_path')
+        psrc = (REPO / 'loki/transformations/build_system/plan.py').read_text()
+        wp = next(n for n in ast.walk(ast.parse(psrc)) if isinstance(n, ast.FunctionDef) and n.name == 'write_plan')
+        krep = None
+        for n in ast.walk(wp):
+            if isinstance(n, ast.Call) and isinstance(n.func, ast.Attribute) and n.func.attr == 'replace':
+                krep = [a.value for a in n.args]
+        if krep is None or len(krep) != 2 or any(len(x) != 1 for x in krep):
+            raise ValueError('cannot read the key sanitising of write_plan')
         q = lambda c: "'\\''" if c == "'" else f"'{c}'"      # noqa: E731
         return {'LokiModel/Generated/C24Tables.lean':
                 '/-! generated from loki/transformations/build_system/file_write.py:_get_file_path — do not edit -/\n'
@@ -483,6 +606,8 @@ class C24(Prop):
                 f'def defaultMode : String := {dumps(default)}\n'
                 f'def sanFrom : Char := {q(rep[0])}\n'
                 f'def sanTo : Char := {q(rep[1])}\n'
+                f'def keyFrom : Char := {q(krep[0])}\n'
+                f'def keyTo : Char := {q(krep[1])}\n'
                 'end LokiModel.C24.Tables\n'}
 
     def gen(self, rng, tier):
@@ -506,18 +631,37 @@ class C24(Prop):
                         pl = ['none']
                     else:
                         pl.append(rng.choice(callees))
+                cfg0 = cfg
+                if pl[0] in ('dup', 'rem') and rng.random() < 0.6:
+                    cfg = name_generated_items(rng, proj, cfg0, pl[1])
+                try:
+                    case = self._case(proj, cfg, extra, layout, w, pl)
+                finally:
+                    cfg = cfg0
+                if case is None:
+                    break
+                if case is False:
+                    continue
+                yield case
+
+    def _case(self, proj, cfg, extra, layout, w, pl):
+        if True:
+            if True:
                 try:
                     res = real_runs(proj, cfg, extra, layout, w, pl)
                 except (nx.NetworkXUnfeasible, RuntimeError):
-                    break       # cyclic file graph (C22 finding) / strict-mode graph construction: not C24's subject
+                    return None  # cyclic file graph (C22 finding) / strict-mode graph construction: not C24's subject
                 if 'exc' in res['plan'] or 'exc' in res['conv']:
                     req = [A('plan'), wcfg_sexp(w), [A('broken')]] + make_request(
                         proj, cfg, extra, layout, w, pl, dict(plan=dict(exp=[]), conv=dict(exp=[])))[2:]
-                    yield Case(req, stream='exception-' + pl[0], nontrivial=False)
-                    continue
+                    return Case(req, stream='exception-' + pl[0], nontrivial=False)
+                # inputs of a defect class that is not (yet) listed among the known findings are not generated
+                hit = {f.cls for f in check_property(res, (proj, cfg, extra, layout, w, pl))} & set(GATED)
+                if hit - listed_classes():
+                    return False
                 req = make_request(proj, cfg, extra, layout, w, pl, res)
-                yield Case(req, stream=pl[0] + ('-outdir' if w['outdir'] else ''),
-                           nontrivial=len(flat(res['plan']['append'])) >= 2)
+                return Case(req, stream=pl[0] + ('-outdir' if w['outdir'] else ''),
+                            nontrivial=len(flat(res['plan']['append'])) >= 2)
 
     def impl(self, req):
         res, _ = run_case(req)
@@ -525,7 +669,7 @@ class C24(Prop):
 
     def canon_model(self, resp):
         if isinstance(resp, list) and resp and str(resp[0]) == 'ok':
-            return [[x[0]] + sorted(x[1:]) if isinstance(x, list) and x and str(x[0]) == 'written' else x
+            return [[x[0]] + sorted(x[1:]) if isinstance(x, list) and x and str(x[0]) in ('written', 'planfile') else x
                     for x in resp]
         return resp
 
@@ -534,7 +678,8 @@ class C24(Prop):
         return check_property(res, ctx)
 
     def classes(self):
-        return ['output-collision', 'graph-drift', 'convert-raises', 'created-not-replicated']
+        return ['output-collision', 'graph-drift', 'convert-raises', 'created-not-replicated', 'plandeps-disable-scope',
+                'rename-unresolved-callee']
 
     def shrink_candidates(self, req):
         """structure-preserving smaller requests (the oracle works from wcfg/pipeline/layout/extra/project alone)"""
